@@ -30,7 +30,9 @@ HOSTILE = ['"abc', "'", '"""', "(", ")", "[", "]", "1...", "...", "…", "--1", 
            "DD.MM", "%%", "{", "2:1", "x", "X", "is_valid", "is valid", "format", "Header", "encoding", "__dict__", "_header",
            # legal Python tokens / codec names / expressions that are not what cutplace expects
            "b'a'", "\udc80", "a{99999999999999}", "hex", "rot13", "base64", "idna", "color < 100 // (count - 2)",
-           "id < (5, 4)[count]", "id < 10 ** (10 ** count)", "id.x > 1", "1 if count else x"]
+           "id < (5, 4)[count]", "id < 10 ** (10 ** count)", "id.x > 1", "1 if count else x",
+           # str.isdigit() is true for all of these, int() takes only some of them; more digits than int() converts
+           "\u00b2", "7\u00b3", "\u2460", "\u0663\u0664", "9" * 4301]
 RULE_TEXT = (
     "fault enumeration: sweep of (base CID or data table, row, column, hostile value) single-cell replacements (see "
     "sweep_note) plus seeded scenarios with two hostile cells at once or one container fault (truncate / bitflip / "
